@@ -158,7 +158,7 @@ def unescapeD (j : Json) : Except String Json := do
 open Paths in
 def scanD (j : Json) : Except String Json := do
   let uri ← getHex j "uri"
-  pure (Json.mkObj [("params", jstrs ((orderedParams uri).map hexStr)), ("chi", hexStr (toChi uri)),
+  pure (Json.mkObj [("params", jstrs ((orderedParams uri).map hexStr)), ("chi", hexStr (toChi uri)), ("std", hexStr (toStdHttp uri)),
     ("colon", hexStr (toColon uri)), ("fmt", hexStr (toFmt' uri))])
 
 open Paths in
